@@ -140,8 +140,7 @@ class Interp:
                         binds = dict(binds)
                         for wv, (wty, wexpr) in cl.witness.items():
                             binds[wv] = self.coerce(self.spec_val(wexpr, s, frame, old=u.entry), u.T(wty), s, None, frame, spec=True)
-                    g = self.spec(cl.text, s, frame, old=u.entry, binds=binds, assume=False)
-                    self.oblige_split(s, g, "post", cl.label, cl.props)
+                    self.oblige_clause(s, cl, "post", cl.label, frame, old=u.entry, binds=binds)
             elif kind == "raise":
                 if v in rcond:
                     u.oblige(s, rcond[v], "raises", v, c.props | {"C01"})
@@ -149,6 +148,20 @@ class Interp:
                     u.oblige(s, z3.BoolVal(False), "safe", "raise-" + str(v), {"C01"})
             else:
                 raise Unsupported("%s outside a loop" % kind)
+
+    def oblige_clause(self, st, cl, kind, label, frame, **kw):
+        """obligation(s) for one contract clause; a clause with a case split is proved case by case"""
+        if cl.cases is None:
+            g = self.spec(cl.text, st, frame, assume=False, **kw)
+            self.oblige_split(st, g, kind, label, cl.props)
+            return
+        body, gens, cases = cl.cases
+        for i, c in enumerate(cases):
+            g = self.spec("all(implies(%s, %s) %s)" % (c, body, gens), st, frame, assume=False, **kw)
+            self.oblige_split(st, g, kind, "%s.case%d" % (label, i), cl.props)
+        cover = " or ".join("(%s)" % c for c in cases)
+        g = self.spec("all(%s %s)" % (cover, gens), st, frame, assume=False, **kw)
+        self.oblige_split(st, g, kind, "%s.cover" % label, cl.props)
 
     def oblige_split(self, st, goal, kind, label, props, guard=(), where=None):
         parts = split_goal(goal)
@@ -438,9 +451,18 @@ class Interp:
         if not cuts or self.u.dry:
             return
         for tag in self.stmt_tags(frame, s):
-            for cl in cuts.get((frame.qname, tag), []):
-                g = self.spec(cl.text, st, frame, old=self.u.entry, assume=False)
-                self.oblige_split(st, g, "cut", "%s.%s" % (tag, cl.label), cl.props)
+            cls = cuts.get((frame.qname, tag), [])
+            if not cls:
+                continue
+            for cl in cls:
+                self.oblige_clause(st, cl, "cut", "%s.%s" % (tag, cl.label), frame, old=self.u.entry)
+            if (frame.qname, tag) in getattr(self.reg, "strong_cuts", ()):
+                # proof-outline step: forget every quantified fact gathered so far; only the cut's clauses (just proved),
+                # the ground facts and the background axioms are carried on
+                def quantified(f):
+                    return "ForAll" in f.sexpr()[:20000] or "forall" in f.sexpr()[:20000] or "exists" in f.sexpr()[:20000]
+                st.pc = [f for f in st.pc if not quantified(f)]
+            for cl in cls:
                 st.pc.append(self.spec(cl.text, st, frame, old=self.u.entry, assume=True))
 
     def feasible(self, st, extra):
